@@ -13,6 +13,7 @@ import DlmsVerif.Run.Time
 import DlmsVerif.Run.Axdr
 import DlmsVerif.Run.Parsers
 import DlmsVerif.Run.Wrapper
+import DlmsVerif.Run.Xdlms
 
 structure DriverState where
   link : Run.Link.S := {}
@@ -22,6 +23,7 @@ def step (st : DriverState) (line : String) : DriverState × String :=
   match (line.trimAscii.toString.splitOn " ").filter (· ≠ "") with
   | "crc" :: rest => (st, Run.Crc.handle rest)
   | "fld" :: rest => (st, Run.Fields.handle rest)
+  | "xdlms" :: rest => (st, Run.Xdlms.handle rest)
   | "wrp" :: rest => (st, Run.Wrapper.handle rest)
   | "pars" :: rest => (st, Run.Parsers.handle rest)
   | "axdr" :: rest => (st, Run.Axdr.handle rest)
